@@ -49,9 +49,10 @@ def check_with_lines(fx, rep, rule, impl, path, key_prefix):
     """C01.R1-R4 (+ loop tail): every iteration of the with-lines loop equals the reference."""
     b = fx.bodies[path]
     rep.fn(path)
-    extract = [q for q in A.func(fx, impl, "extract_class_name")]
-    extract_fn = S.short_path(extract[0]) if extract else "?"
-    sy = S.Sym(fx, opaque=lambda q: q.endswith("::extract_class_name"))
+    # role anchor: the local helper(s) `fn(&str) -> Option<&str>` called from this function (the outer-simple-name helper)
+    helpers = str_helpers(fx, b)
+    extract_fn = S.short_path(helpers[0]) if len(helpers) == 1 else "?"
+    sy = S.Sym(fx, opaque=lambda q: q in helpers)
     try:
         res = sy.eval_body(b)
     except S.Undecidable as e:
@@ -109,6 +110,19 @@ def check_with_lines(fx, rep, rule, impl, path, key_prefix):
     rep.check(rule, "%s/driver/%s" % (key_prefix, impl), drv_ok, loc=F.loc(L["node"]),
               found="loop iterates %s" % (S.tstr(drv) if drv else "?"),
               expected="the loop consumes the member iterator parameter directly (no adaptor)")
+
+
+def str_helpers(fx, b):
+    out = []
+    for n in F.walk(b["body"]):
+        if n.get("k") == "Call" and "fn" in n:
+            tgt = fx.by_dp.get(n["fn"].get("dp"))
+            if tgt and tgt in fx.bodies and fx.bodies[tgt]["kind"] == "Fn" and fx.bodies[tgt]["krate"] == "proguard":
+                tb = fx.bodies[tgt]
+                if len(tb.get("inputs", [])) == 1 and tb["inputs"][0].replace("'_ ", "").startswith("&") and "str" in tb["inputs"][0] \
+                        and tb.get("output", "").startswith("std::option::Option<&") and tgt not in out:
+                    out.append(tgt)
+    return out
 
 
 def driver_of_loop(L):
